@@ -64,6 +64,38 @@ def opMono (kv : KV) : Option String := do
   let (cut, codes, labels) := monotonicFactorization Val.lt Val.gt Val.isNan xs
   pure s!"cutoff={cut} codes={showInts ((codes.take cut).map Int.ofNat)} labels={showVals labels}"
 
+/-- single-group evaluation through the per-group fold (equal to the array-level kernel by `groupFold_spec`) -/
+def groupPositions (codes : List Int) (forward : Bool) (g : Int) : List Nat :=
+  ((scanRows codes forward).filter (fun r => r.1 = g)).map (·.2)
+
+def opNth (kv : KV) : Option String := do
+  let codes ← parseIntListRle (← get kv "codes")
+  let ng ← parseNat (← get kv "ng")
+  let n ← parseInt (← get kv "n")
+  let w := Generated.Constants.seenWidthNth
+  let fwd := decide (0 ≤ n)
+  let n' := if 0 ≤ n then n else -n - 1
+  let res := (List.range ng).map fun g =>
+    (groupPositions codes fwd (Int.ofNat g)).foldl (nthStep w n') nthInit
+  let model := if res.any (·.failed) then "assert" else showInts (res.map (·.out))
+  let spec := showInts ((List.range ng).map fun g => specNth codes n (Int.ofNat g))
+  pure s!"model={model} spec={spec} w={w}"
+
+def opFirstLast (kv : KV) : Option String := do
+  let codes ← parseIntListRle (← get kv "codes")
+  let ng ← parseNat (← get kv "ng")
+  let n ← parseNat (← get kv "n")
+  let fwd ← parseNat (← get kv "fwd")
+  let forward := fwd != 0
+  let w := Generated.Constants.seenWidthFirstLast
+  let rows := (List.range ng).map fun g =>
+    let s := (groupPositions codes forward (Int.ofNat g)).foldl (flStep w n) (flInit n)
+    if forward then s.slots else s.slots.reverse
+  let specRows := (List.range ng).map fun g =>
+    if forward then specHead codes n (Int.ofNat g) else specTail codes n (Int.ofNat g)
+  let sh := fun (rs : List (List Int)) => if n == 0 then "-" else "|".intercalate (rs.map showInts)
+  pure s!"model={sh rows} spec={sh specRows} w={w}"
+
 def opScalar (kv : KV) : Option String := do
   let fn ← get kv "fn"
   let k ← parseKind (← get kv "kind")
@@ -84,6 +116,8 @@ def step (line : String) : String :=
       | "scalar" => opScalar kv
       | "gb" => opGb kv
       | "fact" => opFact kv
+      | "nth" => opNth kv
+      | "firstlast" => opFirstLast kv
       | "mono" => opMono kv
       | _ => none
     r.getD "bad-op"
